@@ -358,8 +358,40 @@ def gen_id(rng, pname, allow_null=False):
     return rng.randint(0, 10 ** 9)
 
 
+# values that themselves look like JSON-RPC messages (a proxy / logger / test tool forwards messages
+# as data): they are params, results, error data - never the message being decoded
+FORWARDED = [
+    {'jsonrpc': '2.0', 'method': 'm', 'params': [1], 'id': 1},
+    {'jsonrpc': '2.0', 'method': 'n'},
+    {'jsonrpc': '2.0', 'result': 7, 'id': 3},
+    {'jsonrpc': '2.0', 'error': {'code': -32601, 'message': 'x'}, 'id': None},
+    {'jsonrpc': '2.0'},
+    {'method': 'm', 'params': [], 'id': 4},
+    {'result': 1, 'error': None, 'id': 5},
+    {'result': None, 'error': {'code': 1, 'message': 'e'}, 'id': 6},
+    {'jsonrpc': '1.0', 'method': 'm', 'params': [], 'id': 7},
+    [{'jsonrpc': '2.0', 'method': 'a', 'id': 1}, {'jsonrpc': '2.0', 'method': 'b'}],
+]
+
+
+def gen_forwarded(rng):
+    """a forwarded message, bare or wrapped one or two levels deep"""
+    v = rng.choice(FORWARDED)
+    r = rng.random()
+    if r < 0.4:
+        return v
+    if r < 0.6:
+        return [v]
+    if r < 0.8:
+        return {'fwd': v, 'seq': rng.randint(0, 9)}
+    return [0, {'inner': [v, rng.choice(FORWARDED)]}]
+
+
 def gen_args(rng, pname):
     r = rng.random()
+    if rng.random() < 0.12:
+        a = [gen_forwarded(rng) for _ in range(rng.randint(1, 2))]
+        return a if rng.random() < 0.7 else {'msg': a[0]}
     if r < 0.12:
         return []
     if r < 0.2:
@@ -387,10 +419,15 @@ def gen_rt(rng):
         return RT(pname, 'notification', method=cc.gen_str(rng), args=gen_args(rng, pname))
     if r < 0.6:
         v = cc.gen_value(rng, 4) if rng.random() < 0.9 else cc.nest(rng, rng.choice((20, 150)))
+        if rng.random() < 0.12:
+            v = gen_forwarded(rng)
         return RT(pname, 'result', value=v, rid=gen_id(rng, pname, allow_null=True))
     if r < 0.8:
-        return RT(pname, 'error', code=cc.gen_int(rng), message=cc.gen_str(rng),
-                  rid=gen_id(rng, pname, allow_null=True))
+        msg = cc.gen_str(rng) if rng.random() < 0.9 else json.dumps(rng.choice(FORWARDED), separators=(',', ':'))
+        rid = gen_id(rng, pname, allow_null=True)
+        if rng.random() < 0.05:
+            rid = json.dumps(rng.choice(FORWARDED), separators=(',', ':'))
+        return RT(pname, 'error', code=cc.gen_int(rng), message=msg, rid=rid)
     members = []
     for _ in range(rng.randint(1, 5)):
         if rng.random() < 0.65:
@@ -988,6 +1025,13 @@ def _conn_messages(mod):
         'v2res': lambda: v2.response_message('r', 'r0'),
         'v2err': lambda: v2.response_message(E_(-32601, 'nope'), 'r1'),
         'v2batch': lambda: v2.batch_message(B([R('p', []), N('q', {}), R('r', [3])]), [31, 32]),
+        # messages that carry a message of the OTHER version as data
+        'v1reqfwd2': lambda: v1.request_message(R('fwd', [{'jsonrpc': '2.0', 'method': 'm', 'id': 1}]), 41),
+        'v1notiffwd2': lambda: v1.notification_message(N('log', [[{'jsonrpc': '2.0', 'result': 1, 'id': 2}]])),
+        'v1resfwd2': lambda: v1.response_message({'seen': {'jsonrpc': '2.0'}}, 'r0'),
+        'barereqfwd2': lambda: b'{"method":"fwd","params":{"msg":{"jsonrpc" : "2.0","method":"x"}},"id":42}',
+        'v2reqfwd1': lambda: v2.request_message(R('fwd', [{'result': 1, 'error': None, 'id': 9}]), 43),
+        'v2resfwd1': lambda: v2.response_message({'jsonrpc': '1.0', 'method': 'm', 'params': [], 'id': 1}, 'r1'),
         'v2resbatch': lambda: b'[' + v2.response_message(1, 'r0') + b', ' + v2.response_message(2, 'r1') + b']',
         'barereq': lambda: b'{"method":"m","id":5}',
         'bareres': lambda: b'{"result":1,"id":"r0"}',
@@ -1002,10 +1046,17 @@ def _conn_messages(mod):
 
 
 CONN_QUICK = ('v1req', 'v1req2', 'v1notif', 'v1res', 'v2req', 'v2named', 'v2notif', 'v2res', 'v2err',
-              'v2batch', 'barereq', 'bareres', 'v1explicit', 'badjson')
+              'v2batch', 'barereq', 'bareres', 'v1explicit', 'badjson', 'v1reqfwd2', 'v2reqfwd1')
+# the class whose encoder produced the message (for "decodes the first message exactly as its
+# originating version would")
+CONN_ORIGIN = {'v1req': 'v1', 'v1req2': 'v1', 'v1notif': 'v1', 'v1res': 'v1', 'v1err': 'v1',
+               'v1reqfwd2': 'v1', 'v1notiffwd2': 'v1', 'v1resfwd2': 'v1',
+               'v2req': 'v2', 'v2named': 'v2', 'v2notif': 'v2', 'v2res': 'v2', 'v2err': 'v2', 'v2batch': 'v2',
+               'v2reqfwd1': 'v2', 'v2resfwd1': 'v2'}
 CONN_ALL = ('v1req', 'v1req2', 'v1notif', 'v1res', 'v1err', 'v2req', 'v2named', 'v2notif', 'v2res', 'v2err',
             'v2batch', 'v2resbatch', 'barereq', 'bareres', 'v1explicit', 'bothnull', 'mixedbatch',
-            'emptybatch', 'number', 'badjson', 'badutf8')
+            'emptybatch', 'number', 'badjson', 'badutf8', 'v1reqfwd2', 'v1notiffwd2', 'v1resfwd2',
+            'barereqfwd2', 'v2reqfwd1', 'v2resfwd1')
 CONN_SENDS = ('send', 'sendnamed', 'sendnotif', 'sendbatch', 'answer')
 
 
@@ -1131,6 +1182,7 @@ def eval_conn_history(mod, names, loop):
     classes, toks, nrecv = [], [], 0
     viol = None
     q0 = None
+    first_parse_step = None
 
     def run(side, name, step):
         """one step on one side; an `answer` is a response (in the format of the detected class) to
@@ -1181,6 +1233,26 @@ def eval_conn_history(mod, names, loop):
                 classes.append('PY' + oa[1])
             if msg.lstrip()[:1] == b'[' and toks[-1][:2] != 'x:':
                 classes[-1] = 'B*'          # batches: the connection-level outcome is C01/C02's model
+        if first_parse_step is None and ref is not None and not sending:
+            first_parse_step = step
+            origin = CONN_ORIGIN.get(name)
+            if origin in P and viol is None:
+                # what a connection of the originating version makes of the same bytes: the item
+                # (kind, method, args) resp. the refusal must be the same (reply bytes are in the
+                # format of the detected class and are not compared here)
+                oo = _conn_op(mod, mod.JSONRPCConnection(P[origin]), [], name, msgs, None)
+
+                def meaning(o):
+                    if o[0] == 'items':
+                        return ('items', [d[:3] for d in o[1]])
+                    if o[0] == 'pe':
+                        return ('pe', o[1], o[2] is not None)
+                    return o
+                if meaning(oa) != meaning(oo):
+                    viol = ('c04:autodetect',
+                            f'first message {name} (encoded by {origin}): the auto-detecting connection gives '
+                            f'{str(meaning(oa))[:140]} where a {origin} connection gives {str(meaning(oo))[:140]} '
+                            f'(detected: {q0})')
         if ref is not None:
             orf, _ = run(ref, name, step)
             sa, sr = [_fut_state(f) for f in auto.futs], [_fut_state(f) for f in ref.futs]
@@ -1329,6 +1401,9 @@ def random_payload(rng):
         for m in MEMBERS:
             if rng.random() < 0.5:
                 p[m] = rng.choice(GRID[m]) if rng.random() < 0.7 else cc.gen_value(rng, 2)
+                if m in ('params', 'result', 'error') and rng.random() < 0.1:
+                    p[m] = gen_forwarded(rng) if m != 'error' else {'code': 1, 'message': 'm',
+                                                                    'data': gen_forwarded(rng)}
         if rng.random() < 0.2:
             p[cc.gen_str(rng)] = cc.gen_value(rng, 1)
         items = list(p.items())
